@@ -868,6 +868,26 @@ package builder
 //@   ensures [single C11] len(e) == 1 ==> res == errMsg(e[0])
 //@   safety C11
 //@   frame C18
+// the two convenience entries: a read/open/close failure is returned as it is, otherwise the result is Parse's
+//@ extern io.ReadAll(r io.Reader) (b []byte, rerr error)
+//@ extern os.Open(name string) (f *os.File, oerr error)
+//@   ensures oerr == nil ==> f != nil
+//@ extern os.File.Close(f *os.File) (cerr error)
+//@ func ParseReader(filename string, r io.Reader, opts []Option) (val any, err error)
+//@   modifies all Stats.ExprCnt, all map[string]any, all storeDict, PSdbg0, PSmemo0, PSstate0
+//@   all-calls io.ReadAll [read-error-returned C11] rerr != nil ==> err == rerr && val == nil
+//@   panics [user] true
+//@   safety C11
+//@ func ParseFile(filename string, opts []Option) (i any, err error)
+//@   modifies all Stats.ExprCnt, all map[string]any, all storeDict, PSdbg0, PSmemo0, PSstate0
+//@   all-calls os.Open [open-error-returned C11] oerr != nil ==> err == oerr && i == nil
+//@   all-calls os.File.Close [close-error-returned C11] cerr != nil ==> err == cerr
+//@   panics [user] true
+//@   safety C11
+//@ func (p position) String() (res string)
+//@   pure
+//@   ensures [format C11] res == itoa(p.line) + ":" + itoa(p.col) + " [" + itoa(p.offset) + "]"
+//@   safety C11
 // Parse: the API entry. Every non-nil error it returns is a non-empty list of parser errors (C11).
 //@ func Parse(filename string, b []byte, opts []Option) (val any, err error)
 //@   modifies all Stats.ExprCnt, all map[string]any, all storeDict, PSdbg0, PSmemo0, PSstate0
